@@ -1242,6 +1242,109 @@ fn stream_case(size: usize, e: End, start: usize, seq: &[Sop], t: &mut Tally) ->
     }
 }
 
+/// TWO readers alive at once — one on the archive under test, one on a second archive with other
+/// bytes and the other endianness — take the steps of a sequence in turn (reader 1 step 0, reader
+/// 2 step 0, reader 1 step 1, ...): each must behave like the positional access at ITS cursor on
+/// ITS archive (a cursor or a scratch buffer kept outside the reader object shows only here).
+fn two_reader_case(size: usize, e: End, start: usize, seq: &[Sop], t: &mut Tally) -> Option<(String, String)> {
+    let r = util::catch(|| -> Result<Option<(String, String)>, String> {
+        let e2 = if e == End::Little { End::Big } else { End::Little };
+        let datas = [stream_bytes(size), stream_bytes(size + 7).into_iter().rev().collect::<Vec<u8>>()];
+        let mut a1 = BinArchive::new(arch::endian(e));
+        a1.allocate_at_end(datas[0].len());
+        a1.write_bytes(0, &datas[0]).map_err(|x| x.to_string())?;
+        let mut a2 = BinArchive::new(arch::endian(e2));
+        a2.allocate_at_end(datas[1].len());
+        a2.write_bytes(0, &datas[1]).map_err(|x| x.to_string())?;
+        let start2 = (start * 7 + 3) % (size + 9);
+        let mut readers = [mila::BinArchiveReader::new(&a1, start), mila::BinArchiveReader::new(&a2, start2)];
+        let mut curs = [start, start2];
+        let ends = [e, e2];
+        for (k, op) in seq.iter().enumerate() {
+            for which in 0..2 {
+                t.calls += 1;
+                let r = &mut readers[which];
+                let cur = &mut curs[which];
+                let data = &datas[which];
+                let width = match op {
+                    Sop::U8 => 1,
+                    Sop::U16 | Sop::I16 => 2,
+                    Sop::U32 | Sop::F32 => 4,
+                    Sop::Bytes(n) => *n,
+                    Sop::Skip(n) => {
+                        r.skip(*n);
+                        *cur += n;
+                        continue;
+                    }
+                    Sop::SeekRel(d) => {
+                        *cur = (*cur as isize + d).max(0) as usize;
+                        r.seek(*cur);
+                        continue;
+                    }
+                    Sop::Alloc(_) => continue,
+                };
+                let ok = in_range(*cur, width, data.len());
+                let en = ends[which];
+                let got: Result<Vec<u8>, String> = match op {
+                    Sop::U8 => r.read_u8().map(|v| vec![v]).map_err(|x| x.to_string()),
+                    Sop::U16 => r.read_u16().map(|v| enc(en, v as u32, 2)).map_err(|x| x.to_string()),
+                    Sop::I16 => r.read_i16().map(|v| enc(en, v as u16 as u32, 2)).map_err(|x| x.to_string()),
+                    Sop::U32 => r.read_u32().map(|v| enc(en, v, 4)).map_err(|x| x.to_string()),
+                    Sop::F32 => r.read_f32().map(|v| enc(en, v.to_bits(), 4)).map_err(|x| x.to_string()),
+                    Sop::Bytes(n) => r.read_bytes(*n).map_err(|x| x.to_string()),
+                    _ => unreachable!(),
+                };
+                match (&got, ok) {
+                    (Ok(b), true) if *b == data[*cur..*cur + width] => *cur += width,
+                    (Err(_), false) => {}
+                    _ => {
+                        return Ok(Some((
+                            format!("two-readers:{:?}", op).split('(').next().unwrap().to_string(),
+                            format!("two readers alive (archive 1: {} bytes {:?} from {}; archive 2: {} bytes {:?} from {}), sequence {:?} taken in turn: reader {} step {} ({:?}) at cursor {} returned {:?}, the positional access on its archive gives {}", datas[0].len(), e, start, datas[1].len(), e2, start2, seq, which + 1, k, op, cur, got.as_ref().map(|b| util::hex(b)), if ok { util::hex(&data[*cur..*cur + width]) } else { "Err".into() }),
+                        )))
+                    }
+                }
+                if r.tell() != *cur {
+                    return Ok(Some(("two-readers:cursor".into(), format!("two readers alive, sequence {:?} taken in turn from {} / {}: after step {} reader {} is at {} instead of {}", seq, start, start2, k, which + 1, r.tell(), cur))));
+                }
+            }
+        }
+        Ok(None)
+    });
+    match r {
+        Err(p) => Some((format!("panic@{}:two-readers", p.location), format!("two readers, sequence {:?} from {} on a {}-byte archive panicked: {}", seq, start, size, p.message))),
+        Ok(Err(x)) => Some(("machinery:two-readers-setup".into(), x)),
+        Ok(Ok(v)) => v,
+    }
+}
+
+fn run_two_readers(tier: Tier) -> Tally {
+    let depth = tier.pick(3usize, 4usize);
+    let read_ops: Vec<usize> = (0..SOPS.len()).filter(|i| !matches!(SOPS[*i], Sop::Alloc(_))).collect();
+    let mut jobs: Vec<(End, usize)> = Vec::new();
+    for e in [End::Little, End::Big] {
+        for start in (0..=202usize).step_by(tier.pick(3, 1)) {
+            jobs.push((e, start));
+        }
+    }
+    jobs.par_iter()
+        .fold(Tally::new, |mut t, (e, start)| {
+            for len in 1..=depth {
+                for idx in util::odometer(read_ops.len(), len) {
+                    let idx: Vec<usize> = idx.iter().map(|i| read_ops[*i]).collect();
+                    let seq: Vec<Sop> = idx.iter().map(|i| SOPS[*i]).collect();
+                    t.cases += 1;
+                    t.nontrivial += 1;
+                    if let Some((sig, summary)) = two_reader_case(200, *e, *start, &seq, &mut t) {
+                        t.violate(sig, summary, json!({"part": "two-readers", "size": 200, "endian": format!("{:?}", e), "start": start, "seq": idx}));
+                    }
+                }
+            }
+            t
+        })
+        .reduce(Tally::new, Tally::merge)
+}
+
 /// all sequences of ≤ depth stream operations from EVERY start position of a 200-byte archive,
 /// and from the positions around every power of two of a 70 000-byte archive
 fn run_streams(tier: Tier) -> Tally {
@@ -1382,6 +1485,9 @@ fn explore(ctx: &Ctx) -> Outcome {
     let ts = run_streams(ctx.tier);
     let stream_cases = ts.cases;
     total.absorb(ts);
+    let t2 = run_two_readers(ctx.tier);
+    let two_reader_cases = t2.cases;
+    total.absorb(t2);
     {
         let mut t = Tally::new();
         for (sig, summary, case) in run_huge_counts(&mut t) {
@@ -1421,9 +1527,9 @@ fn explore(ctx: &Ctx) -> Outcome {
         total.samples.push(s);
     }
     let mut o = total.into_outcome(
-        "(a) grid: archive sizes 0..=9 (plus one 70 000-byte archive probed around addresses/lengths 255, 65 535 and its end) × both endiannesses × every typed/bytes/annotation accessor × addresses {0..=size+2, 2^31±1, 2^32±1, isize::MAX±1, usize::MAX-8..=usize::MAX} × read_bytes lengths {0..=size+1, isize::MAX, usize::MAX, usize::MAX-address+{0,1,2}} × values (all 256 / all 65 536 in range / walking-one-zero patterns / f32 incl. NaN payloads); oracle: Ok iff non-empty range inside the data (u128 arithmetic), Err ⇒ nothing observable changed, Ok write ⇒ exactly the addressed bytes in the archive's endianness and identical bits on read-back, annotation accessors never change raw bytes. (b) BFS over (archive content, reader cursor, writer cursor) of a 9-byte archive, every stream read/write/seek/skip interleaved with positional calls; oracle: stream op ≡ positional op at the cursor, cursor advances by the width iff Ok, label accesses never move it. (c) ONE reader and ONE writer object kept across every sequence of ≤ 3 (thorough 4) accesses from {u8, u16, i16, u32, f32, bytes(3), bytes(5), skip 1, skip 61, seek −2, seek +62} started at every position 0..=202 of a 200-byte archive and around every power of two up to 65 536 and the end of a 70 000-byte archive, each step compared with the positional access; read_bytes counts around 2^16, 2^20, 2^24 on a 17 MiB archive, stream vs positional. non-trivial = successful in-range accesses",
+        "(a) grid: archive sizes 0..=9 (plus one 70 000-byte archive probed around addresses/lengths 255, 65 535 and its end) × both endiannesses × every typed/bytes/annotation accessor × addresses {0..=size+2, 2^31±1, 2^32±1, isize::MAX±1, usize::MAX-8..=usize::MAX} × read_bytes lengths {0..=size+1, isize::MAX, usize::MAX, usize::MAX-address+{0,1,2}} × values (all 256 / all 65 536 in range / walking-one-zero patterns / f32 incl. NaN payloads); oracle: Ok iff non-empty range inside the data (u128 arithmetic), Err ⇒ nothing observable changed, Ok write ⇒ exactly the addressed bytes in the archive's endianness and identical bits on read-back, annotation accessors never change raw bytes. (b) BFS over (archive content, reader cursor, writer cursor) of a 9-byte archive, every stream read/write/seek/skip interleaved with positional calls; oracle: stream op ≡ positional op at the cursor, cursor advances by the width iff Ok, label accesses never move it. (c) ONE reader and ONE writer object kept across every sequence of ≤ 3 (thorough 4) accesses from {u8, u16, i16, u32, f32, bytes(3), bytes(5), skip 1, skip 61, seek −2, seek +62} started at every position 0..=202 of a 200-byte archive and around every power of two up to 65 536 and the end of a 70 000-byte archive, each step compared with the positional access; the same sequences taken in turn by TWO readers alive at once on two archives of different bytes and endianness; read_bytes counts around 2^16, 2^20, 2^24 on a 17 MiB archive, stream vs positional. non-trivial = successful in-range accesses",
         true,
-        vec![("long_lived_stream_sequences", json!(stream_cases)), ("grid_cases", json!(grid_cases)), ("cursor_bfs_states", json!(bfs_states)), ("cursor_bfs_transitions", json!(bfs_trans)), ("cursor_bfs_depth", json!(depth)), ("cursor_states_per_depth", json!(per_depth)), ("cursor_witnesses", json!(wit))],
+        vec![("long_lived_stream_sequences", json!(stream_cases)), ("two_readers_interleaved_sequences", json!(two_reader_cases)), ("grid_cases", json!(grid_cases)), ("cursor_bfs_states", json!(bfs_states)), ("cursor_bfs_transitions", json!(bfs_trans)), ("cursor_bfs_depth", json!(depth)), ("cursor_states_per_depth", json!(per_depth)), ("cursor_witnesses", json!(wit))],
     );
     o.coverage.states += bfs_states;
     o.coverage.transitions += bfs_trans;
@@ -1460,6 +1566,12 @@ fn replay(_ctx: &Ctx, case: &Value) -> Vec<Violation> {
         let seq: Vec<Sop> = case["seq"].as_array().map(|a| a.iter().map(|i| SOPS[i.as_u64().unwrap_or(0) as usize % SOPS.len()]).collect()).unwrap_or_default();
         let mut t = Tally::new();
         return stream_case(size, e, start, &seq, &mut t).map(|(sig, summary)| vec![Violation { sig, summary, case: case.clone() }]).unwrap_or_default();
+    }
+    if case["part"] == "two-readers" {
+        let start = case["start"].as_u64().unwrap_or(0) as usize;
+        let seq: Vec<Sop> = case["seq"].as_array().map(|a| a.iter().map(|i| SOPS[i.as_u64().unwrap_or(0) as usize % SOPS.len()]).collect()).unwrap_or_default();
+        let mut t = Tally::new();
+        return two_reader_case(200, e, start, &seq, &mut t).map(|(sig, summary)| vec![Violation { sig, summary, case: case.clone() }]).unwrap_or_default();
     }
     if case["part"] == "dangling" {
         let mut t = Tally::new();
